@@ -354,8 +354,7 @@ def r4_count(ctx, f, rep):
         for e in p.calls():
             if e['res'] == 'member::Members::choose_active_members':
                 w = e['args'][1]
-                good = w[0] == 'call' and calls[w[1]]['res'] == 'core::cmp::Ord::min' and \
-                    any(q.peel(a)[0] == 'const' and q.peel(a)[2] == 65535 for a in calls[w[1]]['args'])
+                good = q.bounded_by(p, w, 65535)
                 capped += 1
                 if not good:
                     rep.violation('C07-R4', b.nname, 'feed-cap', 'the number of members selected for a Feed is not '
